@@ -11,6 +11,9 @@ From Flocq Require Import Core BinarySingleNaN Binary Bits.
 From BS Require Import Base NumSpec NumModel.
 Local Open Scope Z_scope.
 
+(* std::numeric_limits<S>::digits: value bits without the sign bit *)
+Definition digits_of (S : ity) : Z := if signed_of S then bits_of S - 1 else bits_of S.
+
 Section Format.
   Variable prec emax : Z.
   Context (prec_gt_0_ : Prec_gt_0 prec).
@@ -20,12 +23,6 @@ Section Format.
 
   (* static_cast<F>(z) for an integer z *)
   Definition of_int (z : Z) : fl := Binary.binary_normalize prec emax _ _ mode_NE z 0 false.
-
-  (* value > 0, value < 0 with the int literal 0 converted to F (exact) *)
-  Definition fgt0 (x : fl) : bool :=
-    match Binary.Bcompare prec emax x (Binary.B754_zero prec emax false) with Some Gt => true | _ => false end.
-  Definition flt0 (x : fl) : bool :=
-    match Binary.Bcompare prec emax x (Binary.B754_zero prec emax false) with Some Lt => true | _ => false end.
 
   (* static_cast<S>(x): bool is "x != 0"; an integer type takes the truncated value, undefined
      behaviour (None) when that is outside the type or x is not finite *)
@@ -39,19 +36,27 @@ Section Format.
       else None
     end.
 
-  (* Convert::Detail::To(const S&, F&): S integer / bool / char, F floating *)
+  (* value < limit for two values of F *)
+  Definition flt (a b : fl) : bool :=
+    match Binary.Bcompare prec emax a b with Some Lt => true | _ => false end.
+
+  (* Convert::Detail::To(const S&, F&): S integer / bool / char, F floating (after fix 30e94fb).
+     bool source: the bool branch (cast, cast back, compare).  Other sources:
+       result = value < std::ldexp(F(1), numeric_limits<S>::digits) && static_cast<S>(value) == sourceValue
+     with && short-circuit, so the cast back is only evaluated below 2^digits. *)
   Definition conv_int_fp (S : ity) (z : Z) : cres fl :=
     let value := of_int z in                                  (* auto value = static_cast<TTarget>(sourceValue) *)
-    match to_int_cast S value with                             (* static_cast<TSource>(value) *)
-    | None => CUB
-    | Some back =>
-      if is_bool S then
-        if eq_c S back S z then COk value else COutOfRange
-      else
-        let result := eq_c S back S z
-                      && negb ((fgt0 value && lt0 S z) || (flt0 value && gt0 S z)) in
-        if result then COk value else COutOfRange
-    end.
+    if is_bool S then
+      match to_int_cast S value with
+      | None => CUB
+      | Some back => if eq_c S back S z then COk value else COutOfRange
+      end
+    else if flt value (of_int (2 ^ digits_of S)) then          (* 2^digits is exactly representable *)
+      match to_int_cast S value with                           (* static_cast<TSource>(value) *)
+      | None => CUB
+      | Some back => if eq_c S back S z then COk value else COutOfRange
+      end
+    else COutOfRange.
 End Format.
 
 Definition prec32_gt_0 : Prec_gt_0 24 := eq_refl.
